@@ -245,14 +245,51 @@ func c04Run(t *testing.T, sub, keyName string, maxK int, nonrev bool, qb, tb tim
 						r.Violate("C04|proof-not-created|builder", fmt.Sprintf("%v %s %v", caseID, msg, err), caseID)
 						continue
 					}
-					L, err := ProofBuilderList{b}.BuildProofList(vfContext, vfNonce, issig)
+					// the order a signature session uses: commit + challenge, timestamp contributions, then the proof
+					chal, err := ProofBuilderList{b}.Challenge(vfContext, vfNonce, issig)
+					if err != nil {
+						r.Violate("C04|proof-not-created|Challenge", fmt.Sprint(err), caseID)
+						continue
+					}
+					tsA, ts := b.TimestampRequestContributions()
+					L, err := ProofBuilderList{b}.BuildDistributedProofList(chal, nil)
 					if err != nil {
 						r.Violate("C04|proof-not-created|BuildProofList", fmt.Sprint(err), caseID)
 						continue
 					}
-					tsA, ts := b.TimestampRequestContributions()
 					ok := vsCloneList(L).Verify([]*gabikeys.PublicKey{pk}, vfContext, vfNonce, issig, nil)
 					judge("builder", L[0].(*ProofD), tsA, ts, ok)
+					// the credential must be unchanged by the session, and a second session on it (the
+					// complementary subset) must work as well
+					for i, v := range vals {
+						if cred.Attributes[i+1] == nil || cred.Attributes[i+1].Cmp(v) != 0 {
+							r.Violate("C04|credential-changed-by-a-disclosure-session", fmt.Sprintf("%v: attribute %d of the credential is %s after the session, it was %s", caseID, i+1, vfShort(cred.Attributes[i+1]), vfShort(v)), caseID)
+						}
+					}
+					if cred.Attributes[0].Cmp(secret) != 0 {
+						r.Violate("C04|credential-changed-by-a-disclosure-session", fmt.Sprintf("%v: the secret key attribute changed", caseID), caseID)
+					}
+					var D2 []int
+					for i := 1; i <= kk; i++ {
+						if !inD[i] {
+							D2 = append(D2, i)
+						}
+					}
+					if p2, err := cred.CreateDisclosureProof(D2, nil, nonrev, vfContext, vfNonce); err != nil {
+						r.Violate("C04|proof-not-created|second-session", fmt.Sprint(caseID, err), caseID)
+					} else {
+						r.Eval()
+						ok2 := vsCloneProof(p2).(*ProofD).Verify(pk, vfContext, vfNonce, false)
+						good := ok2
+						for _, i := range D2 {
+							if p2.ADisclosed[i] == nil || p2.ADisclosed[i].Cmp(vals[i-1]) != 0 {
+								good = false
+							}
+						}
+						if !good {
+							r.Violate("C04|second-session-on-the-same-credential-wrong", fmt.Sprintf("%v: second proof disclosing %v: verifies=%v", caseID, D2, ok2), caseID)
+						}
+					}
 				}
 			}
 		}
